@@ -131,6 +131,8 @@ def handle (line : String) : String :=
   -- specification functions
   | ["spec-decode", f], [a] => match ieeeFmt f, parseInt? a with
     | some f, some v => showFloat (IEEE.decode f v.toNat) | _, _ => "bad"
+  | ["spec-trunc", f], [a] => match parseFmt f, parseFP a with
+    | some f, some x => if x.isNormalised then toString (x.truncBits f) else "nonnorm" | _, _ => "bad"
   | ["spec-value"], [a] => match parseFP a with
     | some x => if x.Finite then showRat x.value else "nonfinite" | _ => "bad"
   | ["spec-arith", op], [a, b, r] => match parseFP a, parseFP b, parseFP r with
